@@ -30,7 +30,7 @@ VARIABLES l,         \* next line of TraceLog
           seen,      \* outcome classes reached so far
           ncalls     \* number of call returns judged
 
-tvars == <<phase, held, parked, l, verdict, seen, ncalls>>
+tvars == <<phase, held, parked, cb, l, verdict, seen, ncalls>>
 
 Line == TraceLog[l]
 IsEvent(e) == l <= Len(TraceLog) /\ Line.ev = e /\ l' = l + 1
@@ -43,7 +43,7 @@ TInit == BInit /\ l = 1 /\ verdict = "ok" /\ seen = {} /\ ncalls = 0
 \* A new file system instance: nothing is held.
 TReset ==
   /\ IsEvent("reset")
-  /\ phase' = "idle" /\ held' = {} /\ parked' = 0
+  /\ phase' = "idle" /\ held' = {} /\ parked' = 0 /\ cb' = NoLock
   /\ verdict' = "ok" /\ UNCHANGED <<seen, ncalls>>
 
 \* A call returned and the locks were probed: the call boundary.
@@ -54,12 +54,25 @@ TCall ==
   /\ verdict' = BalanceVerdict(Line.call, Line.outcome, Line.locks_free /\ BusySet(Line) = {})
   /\ seen' = seen \cup {Key(Line)}
   /\ ncalls' = ncalls + 1
-  /\ UNCHANGED parked
+  /\ UNCHANGED <<parked, cb>>
+
+\* The call in progress announced a removal to its environment (the model
+\* of the FUSE kernel in the driver), and the environment's step, a LOOKUP
+\* in the directory the notification is about, finished: Callback and
+\* EnvStep of LockBalance in one observation (the mutex of the directory
+\* was free).  An environment step that cannot finish never produces this
+\* event; the call is then reported as a "hang".
+TNotify ==
+  /\ IsEvent("notify")
+  /\ phase' = "running" /\ UNCHANGED <<held, parked, cb>>
+  /\ verdict' = "ok"
+  /\ seen' = seen \cup {"env/removal-notification/delivered"}
+  /\ UNCHANGED ncalls
 
 \* A call was observed waiting, by design, for another call.
 TPark ==
   /\ IsEvent("park")
-  /\ phase' = "idle" /\ parked' = parked + 1 /\ UNCHANGED held
+  /\ phase' = "idle" /\ parked' = parked + 1 /\ UNCHANGED <<held, cb>>
   /\ verdict' = "ok"
   /\ UNCHANGED <<seen, ncalls>>
 
@@ -68,7 +81,7 @@ TPark ==
 TResumed ==
   /\ IsEvent("resumed")
   /\ phase' = "idle" /\ parked' = IF parked > 0 THEN parked - 1 ELSE 0
-  /\ held' = BusySet(Line)
+  /\ held' = BusySet(Line) /\ UNCHANGED cb
   /\ verdict' = IF parked = 0 THEN "NC:driver-resumed-without-park"
                 ELSE BalanceVerdict(Line.call, Line.outcome, Line.locks_free /\ BusySet(Line) = {})
   /\ seen' = seen \cup {Key(Line)}
@@ -79,7 +92,7 @@ TResumed ==
 \* behind (property C16 speaks about wake-ups): non-conformance.
 TStuck ==
   /\ IsEvent("stuck")
-  /\ phase' = "idle" /\ parked' = 0 /\ UNCHANGED held
+  /\ phase' = "idle" /\ parked' = 0 /\ UNCHANGED <<held, cb>>
   /\ verdict' = "NC:parked-call-not-woken:" \o Line.call
   /\ UNCHANGED <<seen, ncalls>>
 
@@ -87,7 +100,7 @@ TStuck ==
 \* some earlier call left that mutex locked.
 THang ==
   /\ IsEvent("hang")
-  /\ phase' = "running" /\ UNCHANGED <<held, parked>>
+  /\ phase' = "running" /\ UNCHANGED <<held, parked, cb>>
   /\ verdict' = "C14:hang:" \o Line.call
   /\ UNCHANGED <<seen, ncalls>>
 
@@ -96,7 +109,7 @@ THang ==
 \* non-conformance), unless it left a lock behind.
 TPanic ==
   /\ IsEvent("panic")
-  /\ phase' = "idle" /\ held' = BusySet(Line) /\ parked' = 0
+  /\ phase' = "idle" /\ held' = BusySet(Line) /\ parked' = 0 /\ UNCHANGED cb
   /\ verdict' = IF Line.locks_free THEN "NC:panic:" \o Line.call
                 ELSE "C14:lock-leaked-after:" \o Line.call \o ":panic"
   /\ UNCHANGED <<seen, ncalls>>
@@ -105,11 +118,11 @@ TPanic ==
 \* and no call returned for a long time.
 TDeadlock ==
   /\ IsEvent("deadlock")
-  /\ phase' = "running" /\ UNCHANGED <<held, parked>>
+  /\ phase' = "running" /\ UNCHANGED <<held, parked, cb>>
   /\ verdict' = "C14:deadlock"
   /\ UNCHANGED <<seen, ncalls>>
 
-TNext == TReset \/ TCall \/ TPark \/ TResumed \/ TStuck \/ THang \/ TPanic \/ TDeadlock
+TNext == TReset \/ TCall \/ TNotify \/ TPark \/ TResumed \/ TStuck \/ THang \/ TPanic \/ TDeadlock
 
 TraceSpec == TInit /\ [][TNext]_tvars
 
